@@ -53,6 +53,12 @@ func fullCanon(o *Observed, n *Node) string {
 			if (i.Code == "" && i.Err != nil) || i.Code == "user_code" {
 				continue // a PostTransform's own error: gated on the execution-wide error state, order-dependent
 			}
+			if hasPT(n) && (i.Dtype == "struct" || i.Dtype == "slice") {
+				// the verdict of a test on a composite may depend on what those gated PostTransforms wrote
+				// below it, hence on this run's field visit order (the recorded C09 finding); the comparison
+				// with the model (under the run's own order) still covers these issues
+				continue
+			}
 			xs = append(xs, issue(i))
 		}
 		if len(xs) > 0 {
